@@ -7,6 +7,7 @@ CONSTANTS
   MaxLocal = 2
   AllowSelfStop = TRUE
   AllowManual = FALSE
+  AllowVariants = FALSE
   ExactOffers = FALSE
   EmitScripts = FALSE
 CONSTRAINT Bound
